@@ -29,7 +29,8 @@ CONSTANTS Entities,        \* signing names
           NVals,           \* value tokens of nested members
           UVals,           \* value tokens of `unsigned`
           Presentations,   \* presentation tags
-          Starts,          \* initial documents: [obj, pres, sigs (how the empty signature map is written), depth]
+          Starts,          \* initial documents: [obj, pres, sigs (how the empty signature map is written),
+                           \*   depth, signs (budgets of this start: actions / signing actions)]
           MaxLen,          \* bound on the number of actions of a behaviour
           MaxSigns         \* bound on the number of signing actions of a behaviour
 
@@ -125,10 +126,12 @@ Do(a) ==
     /\ UNCHANGED start
 
 \* --- SignJSON(entity, key ID, private key, document) ---------------------
-Sign(e, kid, k) == NSigns < MaxSigns /\ Do(<<"Sign", e, kid, k>>)
+CanSign == NSigns < MaxSigns /\ NSigns < start.signs
+
+Sign(e, kid, k) == CanSign /\ Do(<<"Sign", e, kid, k>>)
 
 \* --- another entity (another implementation) adds its signature by editing the signatures member ---
-ForeignSign(e, kid, k) == NSigns < MaxSigns /\ Do(<<"ForeignSign", e, kid, k>>)
+ForeignSign(e, kid, k) == CanSign /\ Do(<<"ForeignSign", e, kid, k>>)
 
 \* --- tampering: single-member changes -------------------------------------
 Mutate(m, v)     == Do(<<"Mutate", m, v, "">>)
